@@ -7,6 +7,7 @@ import (
 	"github.com/orda-io/orda/client/pkg/iface"
 	"github.com/orda-io/orda/client/pkg/model"
 	"github.com/orda-io/orda/client/pkg/operations"
+	"github.com/orda-io/orda/client/pkg/verifhook"
 )
 
 // WiredDatatype implements the datatype features related to the synchronization with Orda server
@@ -277,6 +278,7 @@ func (its *WiredDatatype) ApplyPushPullPack(ppp *model.PushPullPack) {
 	} else {
 		errs = errs.Append(err)
 	}
+	verifhook.Yield("client.handlers.spawn")
 	go its.callHandlers(errs, oldState, newState, opList)
 }
 
@@ -286,6 +288,7 @@ func (its *WiredDatatype) callHandlers(
 	newState model.StateOfDatatype,
 	opList []interface{},
 ) {
+	defer verifhook.Yield("client.handlers.done")
 	if oldState != newState {
 		its.HandleStateChange(oldState, newState)
 	}
